@@ -4,9 +4,13 @@ C11 driver.
   wf <cfg> <file>                         → 1 | 0: the token hypotheses of print_faithful hold
   accept-print <cfg> <file> <output-hex>  → ok | bad-…   (the implementation's text, read back with
                                             splitNL/lexLine/parseFile, says what the file says)
-  accept-asm <cfg> <file> <output-hex> <n> fn* → ok | bad-…   (decoded object code: instruction order per
-                                            symbol and branch targets against the label binding)
-     fn := <sym-hex> <argsize> <locals> <nosplit 0/1> <n> (line addr target+1)* <n> (instrIdx label-hex)* <n> (label-hex instrIdx)*
+  accept-asm <tag> <cfg> <file> <output-hex> <n> fn* → ok | bad-…   (decoded object code: symbol flags and
+                                            sizes, instruction order per symbol, branch targets against the
+                                            label binding, no machine jump outside the listed branches)
+     tag := what the generator built (plain | hazard=<class>/<label>/<opcode> | f10): not read by the acceptor
+     fn := <sym-hex> <argsize> <locals> <nosplit> <dupok> <topframe> <wrapper> <wantframe> <wantargs>
+           <n> (line addr target+1)* <n> (instrIdx label-hex)* <n> (label-hex instrIdx)*
+           (target+1 = 0: not a jump; = 2^40: a jump without decodable relative target)
 -/
 import AvoVerif.Drv.Print
 import AvoVerif.Gen.TextFlags
@@ -21,18 +25,22 @@ def parseAttrText (t : Txt) : List Tok :=
     | some v => Tok.num v
     | none => Tok.name p)
 
+/-- The `-args` part of `$frame-args` is printed only for a positive argument size. -/
+def posArgs (a : Int) : Int := if a > 0 then a else 0
+
+def clauseValue : Option Txt → Option (BitVec 16)
+  | none => some 0#16
+  | some t => evalToks Avo.Oracle.textflagH (parseAttrText t)
+
 /-- The TEXT line's clause and sizes mean the function's attributes, frame and
 argument size (attribute macros valued by the installed textflag.h). -/
 def acceptRest (f : Function) (rest : Txt) : Option String :=
   match parseTextRest rest with
   | none => some "bad-text-line"
   | some (at?, frame, args) =>
-    let v : Option (BitVec 16) := match at? with
-      | none => some 0#16
-      | some t => evalToks Avo.Oracle.textflagH (parseAttrText t)
-    if v != some f.attrs then some "bad-attrs"
+    if clauseValue at? != some f.attrs then some "bad-attrs"
     else if frame != f.frame then some "bad-frame"
-    else if args != (if f.args > 0 then f.args else 0) then some "bad-args"
+    else if args != posArgs f.args then some "bad-args"
     else none
 
 def acceptSec (s : Sec) (g : SecSum) : Option String :=
@@ -50,17 +58,22 @@ def firstBad : List (Option String) → Option String
   | some e :: _ => some e
   | none :: r => firstBad r
 
-def acceptPrint (f : File) (out : Txt) : String :=
+/-- `none`: the text says what the file says; `some e`: the first disagreement. -/
+def acceptPrintE (f : File) (out : Txt) : Option String :=
   let ls := splitNL out
-  if ls.getLast? != some [] then "bad-no-final-newline" else
-  match parseFile (ls.dropLast.map lexLine) with
-  | none => "bad-grammar"
+  if ls.getLast? != some [] then some "bad-no-final-newline" else
+  match parseFile (lexText out) with
+  | none => some "bad-grammar"
   | some (incl, secs) =>
-    if incl != (fileSum names f).1 then "bad-includes"
-    else if secs.length != f.sections.length then "bad-section-count"
-    else match firstBad (List.zipWith acceptSec f.sections secs) with
-      | some e => e
-      | none => "ok"
+    if incl != (fileSum names f).1 then some "bad-includes"
+    else if secs.length != f.sections.length then some "bad-section-count"
+    else firstBad (List.zipWith acceptSec f.sections secs)
+
+def verdict : Option String → String
+  | none => "ok"
+  | some e => e
+
+def acceptPrint (f : File) (out : Txt) : String := verdict (acceptPrintE f out)
 
 /-! ### object code -/
 
@@ -74,6 +87,11 @@ structure AsmFn where
   args : Int
   locals : Int
   nosplit : Bool
+  dupok : Bool
+  topframe : Bool
+  wrapper : Bool                -- funcid of the object symbol is FuncIDWrapper
+  wantFrame : Int               -- what the generator asked for (−1: unknown)
+  wantArgs : Int
   ents : List Ent
   branches : List (Nat × Txt)
   targets : List (Txt × Nat)
@@ -99,10 +117,15 @@ def asmFnTok : P AsmFn := fun ts => do
   let (args, ts) ← intTok ts
   let (locals, ts) ← intTok ts
   let (nosplit, ts) ← boolTok ts
+  let (dupok, ts) ← boolTok ts
+  let (topframe, ts) ← boolTok ts
+  let (wrapper, ts) ← boolTok ts
+  let (wf, ts) ← intTok ts
+  let (wa, ts) ← intTok ts
   let (ents, ts) ← listOf entTok ts
   let (brs, ts) ← listOf brTok ts
   let (lts, ts) ← listOf ltTok ts
-  some (⟨sym, args, locals, nosplit, ents, brs, lts⟩, ts)
+  some (⟨sym, args, locals, nosplit, dupok, topframe, wrapper, wf, wa, ents, brs, lts⟩, ts)
 
 /-- Per function of the implementation's text: line number of the TEXT line and
 of every instruction line (1-based). -/
@@ -152,36 +175,82 @@ def followJmps (is : List Instr) (brs : List (Nat × Txt)) (binding : List (Txt 
       else ([j], false)
     | _, _ => ([j], false)
 
+/-- A decoded relative jump target (the harness writes 2^40 − 1 for a jump whose operand is not a relative
+address, e.g. an indirect jump). -/
+def relTarget (e : Ent) : Option Nat :=
+  match e.target with
+  | some t => if t < 2 ^ 39 then some t else none
+  | none => none
+
+/-- The object symbol's frame for a TEXT frame `fr`: none for frame 0 (or the saved frame pointer alone),
+`fr` under NOFRAME, `fr + 8` (saved frame pointer) otherwise. -/
+def localsOK (noframe : Bool) (fr locals : Int) : Bool :=
+  if fr == 0 then locals == 0 || (!noframe && locals == 8)
+  else if noframe then locals == fr else locals == fr + 8
+
+/-- Attribute bits the object file shows: DUPOK (bit 1), TOPFRAME (bit 11) and WRAPPER/ABIWRAPPER (bits 5, 12)
+exactly; NOSPLIT (bit 2) in one direction (the assembler marks small leaf functions nosplit by itself);
+NOFRAME (bit 9) through the frame size. -/
+def flagsOK (attrs : BitVec 16) (a : AsmFn) : Option String :=
+  if attrs.getLsbD 2 && !a.nosplit then some "bad-object-nosplit" else
+  if attrs.getLsbD 1 != a.dupok then some "bad-object-dupok" else
+  if attrs.getLsbD 11 != a.topframe then some "bad-object-topframe" else
+  if (attrs.getLsbD 5 || attrs.getLsbD 12) != a.wrapper then some "bad-object-wrapper" else none
+
+/-- Without a positive argument size the TEXT line has no `-args` and the object says "unknown" (−1). -/
+def argsOK (fargs oargs : Int) : Bool := if fargs > 0 then oargs == fargs else decide (oargs ≤ 0)
+
+def branchOK (is : List Instr) (a : AsmFn) (groups : List (Nat × Nat × List Ent)) (binding : List (Txt × Nat))
+    (i : Nat) (l : Txt) : Option String :=
+  match groups[i]?, lookupTxt l binding with
+  | some (_, self, g), some j =>
+    match g.filterMap (·.target) with
+    | [t] =>
+      let ch := followJmps is a.branches binding (is.length + 1) j
+      let addrs := ch.1.filterMap (fun k => groups[k]?.map (·.2.1))
+      if addrs.contains t || (ch.2 && t == self) then none else some s!"bad-branch-target {i}"
+    | _ => some s!"bad-branch-decode {i}"
+  | _, _ => some s!"bad-branch-label {i}"
+
+/-- Indices of the non-terminal instructions whose machine code contains a relative jump (the assembler attaches
+its own epilogue code — frame teardown, the WRAPPER panic check with its jumps — to the source line of a RET). -/
+def machineJumps (is : List Instr) (groups : List (Nat × Nat × List Ent)) : List Nat :=
+  (List.range groups.length).filter (fun i =>
+    match groups[i]?, is[i]? with
+    | some (_, _, g), some ins => !ins.isTerminal && g.any (fun e => (relTarget e).isSome)
+    | _, _ => false)
+
 def acceptAsmFn (f : Function) (ln : Nat × List Nat) (a : AsmFn) : Option String :=
   if a.sym != f.name then some "bad-symbol" else
+  -- the sizes the generator asked for (independent of the accessors the printer uses)
+  if a.wantFrame ≥ 0 && f.frame != a.wantFrame then some "bad-frame-vs-request" else
+  if a.wantArgs ≥ 0 && f.args != a.wantArgs then some "bad-args-vs-request" else
   -- without a positive argument size the TEXT line has no `-args` and the object says "unknown" (-1)
-  if (if f.args > 0 then a.args != f.args else a.args > 0) then some "bad-object-argsize" else
-  if f.attrs.getLsbD 2 && !a.nosplit then some "bad-object-nosplit" else
-  -- the object's frame is the TEXT line's, plus the saved frame pointer when there is a frame
-  if !(a.locals == f.frame || (f.frame > 0 && a.locals == f.frame + 8)) then some "bad-object-frame" else
+  if !argsOK f.args a.args then some "bad-object-argsize" else
+  match flagsOK f.attrs a with
+  | some e => some e
+  | none =>
+  if !localsOK (f.attrs.getLsbD 9) f.frame a.locals then some "bad-object-frame" else
   let groups := groupEnts (a.ents.filter (fun e => e.line != ln.1))
   if groups.map (·.1) != ln.2 then some "bad-instruction-sequence" else
   let binding := labelsFrom f.nodes 0
   if !sameBinding binding a.targets then some "bad-label-binding" else
   let is := instrsOf f.nodes
-  firstBad (a.branches.map (fun (i, l) =>
-    match groups[i]?, lookupTxt l binding with
-    | some (_, self, g), some j =>
-      match g.filterMap (·.target) with
-      | [t] =>
-        let ch := followJmps is a.branches binding (is.length + 1) j
-        let addrs := ch.1.filterMap (fun k => groups[k]?.map (·.2.1))
-        if addrs.contains t || (ch.2 && t == self) then none else some s!"bad-branch-target {i}"
-      | _ => some s!"bad-branch-decode {i}"
-    | _, _ => some s!"bad-branch-label {i}"))
+  match firstBad (a.branches.map (fun (i, l) => branchOK is a groups binding i l)) with
+  | some e => some e
+  | none =>
+    -- every relative jump of the machine code belongs to an instruction the program lists as a branch to a label
+    match (machineJumps is groups).find? (fun i => (lookupNat i a.branches).isNone) with
+    | some i => some s!"bad-unlisted-branch {i}"
+    | none => none
 
-def acceptAsm (f : File) (out : Txt) (fns : List AsmFn) : String :=
-  let lns := fnLineNumbers ((splitNL out).dropLast.map lexLine) 1 []
+def acceptAsmE (f : File) (out : Txt) (fns : List AsmFn) : Option String :=
+  let lns := fnLineNumbers (lexText out) 1 []
   let fs := f.functions
-  if fs.length != fns.length || lns.length != fs.length then "bad-symbol-count" else
-  match firstBad (List.zipWith (fun (p : Function × (Nat × List Nat)) a => acceptAsmFn p.1 p.2 a) (fs.zip lns) fns) with
-  | some e => e
-  | none => "ok"
+  if fs.length != fns.length || lns.length != fs.length then some "bad-symbol-count" else
+  firstBad (List.zipWith (fun (p : Function × (Nat × List Nat)) a => acceptAsmFn p.1 p.2 a) (fs.zip lns) fns)
+
+def acceptAsm (f : File) (out : Txt) (fns : List AsmFn) : String := verdict (acceptAsmE f out fns)
 
 def handle : Handler
   | "print" :: ts => do
@@ -198,7 +267,7 @@ def handle : Handler
     let (f, ts) ← fileTok ts
     let (out, _) ← txtTok ts
     some (acceptPrint f out)
-  | "accept-asm" :: ts => do
+  | "accept-asm" :: _tag :: ts => do
     let (_, ts) ← cfgTok ts
     let (f, ts) ← fileTok ts
     let (out, ts) ← txtTok ts
